@@ -81,3 +81,49 @@ Proof.
   { apply Znearest_imp. apply Rabs_le_inv in Hy. apply Rabs_le_inv in He2. apply Rabs_lt. lra. }
   rewrite Hg, Hq. lia.
 Qed.
+
+(* ---------- both signs: timedelta(seconds=f) splits with modf (truncation towards zero) ---------- *)
+Lemma RN_opp x : RN (- x) = - RN x.
+Proof. unfold RN. apply round_NE_opp. Qed.
+
+Lemma ZnearestE_opp x : ZnearestE (- x) = (- ZnearestE x)%Z.
+Proof.
+  rewrite Znearest_opp. f_equal. unfold Znearest.
+  case Rcompare; trivial.
+  apply (f_equal (fun (b : bool) => if b then Zceil x else Zfloor x)).
+  rewrite Bool.negb_involutive, Z.even_opp, Z.even_add. now rewrite eqb_sym.
+Qed.
+
+Theorem micros_roundtrip_lemma (u : Z) : (Z.abs u < 2^32 * 10^6)%Z ->
+  let f := RN (IZR u / 1000000) in
+  let q := Ztrunc f in
+  let g := RN ((f - IZR q) * 1000000) in
+  (q * 10^6 + ZnearestE g)%Z = u.
+Proof.
+  intros Hu.
+  destruct (Z_le_gt_dec 0 u) as [Hpos|Hneg].
+  - intros f q g.
+    assert (Hf0 : 0 <= f).
+    { unfold f, RN. apply round_ge_generic; auto with typeclass_instances.
+      - apply generic_format_0.
+      - apply Rmult_le_pos; [apply IZR_le; lia|lra]. }
+    assert (Hq : q = Zfloor f) by (unfold q; now apply Ztrunc_floor).
+    pose proof (micros_roundtrip_nonneg_lemma u ltac:(lia)) as H. cbv zeta in H.
+    unfold g. rewrite Hq. exact H.
+  - intros f q g.
+    set (v := (- u)%Z).
+    pose proof (micros_roundtrip_nonneg_lemma v ltac:(unfold v; lia)) as H. cbv zeta in H.
+    set (fv := RN (IZR v / 1000000)) in *.
+    assert (Hfv0 : 0 <= fv).
+    { unfold fv, RN. apply round_ge_generic; auto with typeclass_instances.
+      - apply generic_format_0.
+      - apply Rmult_le_pos; [apply IZR_le; unfold v; lia|lra]. }
+    assert (Ef : f = - fv).
+    { unfold f, fv. rewrite <- RN_opp. f_equal. unfold v. rewrite opp_IZR. field. }
+    assert (Eq : q = (- Zfloor fv)%Z).
+    { unfold q. rewrite Ef, Ztrunc_opp, Ztrunc_floor by assumption. reflexivity. }
+    set (gv := RN ((fv - IZR (Zfloor fv)) * 1000000)) in *.
+    assert (Eg : g = - gv).
+    { unfold g, gv. rewrite <- RN_opp. f_equal. rewrite Ef, Eq, opp_IZR. ring. }
+    rewrite Eg, ZnearestE_opp, Eq. unfold v in H. lia.
+Qed.
